@@ -8,7 +8,9 @@ from decimal import Decimal
 from ..common import chunked, pmap, rotate
 from ..world import get_world
 
-MAGS = [3, -2, 2.5, -0.5, Decimal("1.5"), Decimal("-4")]
+# zero (int, float, Decimal), perfect squares/cubes/sixth powers and both signs are all in the alphabet:
+# each is a class some operator could plausibly special-case
+MAGS = [3, -2, 2.5, -0.5, Decimal("1.5"), Decimal("-4"), 0, 0.0, Decimal("0"), Decimal("64"), 64, 0.25]
 NUMBERS = [2, -3, 0.5, Decimal("2.5")]
 POWERS = [-3, -2, -1, 0, 1, 2, 3]
 BINOPS = ["+", "-", "*", "/", "==", "!=", "<", "<=", ">", ">="]
@@ -213,8 +215,8 @@ def judge_mixed(w, la, ua, ma):
                 out.append(("unexpected_exception", "in_unit", f"({ma!r} {la}).in_unit({lu}) raised {type(e).__name__}"))
     for p in POWERS:
         n += 1
-        if ma == 0 and p < 0:
-            continue
+        if ma == 0 and p <= 0:
+            continue  # 0**0 and 0**negative are excluded from the alphabet (Decimal raises on 0**0)
         check(f"({ma!r} {la}) ** {p}", "quantity ** n", lambda: qa**p, vmul(va, p), dec_a if p != 0 or True else None)
     for r_ in [d for d in POWERS if d != 0]:
         if ma < 0 or (ma == 0 and r_ < 0):
@@ -272,7 +274,7 @@ def run(rep, tier):
     P = pool(w, thorough)
     nq = len(P) * len(MAGS)
     idxs = rotate(list(range(nq)))
-    res = pmap(_chunk, [(thorough, c) for c in chunked(idxs, 64)])
+    res = pmap(_chunk, [(thorough, c) for c in chunked(idxs, 16)])
     outcomes = {}
     for r in res:
         rep.extend(r[2])
